@@ -1,7 +1,7 @@
 (* C20/Run.v — model evaluation on harness histories.
    input: [failures disabled interval t0 [ [ [oks...] time [q1 q2 ...] ] ... ]]  (query times after each round)
    output: [ [ [model_q1 spec_q1 model_q2 spec_q2 ...] ... ] loop_exits ] *)
-From Relic Require Import Base.Prelude Base.Val Generated.C20_gen C20.Model C20.Lock.
+From Relic Require Import Base.Prelude Base.Val Generated.C20_gen C20.Model C20.Lock C20.Scope.
 
 Definition vround (v : val) : round := mkR (map vbool (vl (vnth 0 v))) (vz (vnth 1 v)).
 Fixpoint go (failures : Z) (disabled : bool) (interval t0 : Z) (done : list round) (rest : list val) : list val :=
@@ -49,5 +49,47 @@ Definition run_conc (v : val) : val :=
   let '(s, os) := run_sys hc_plan healthy_plan C s0 sched in
   VL [VL (map of_obs os); VL (map of_obs (spec_obs hc_plan healthy_plan C t0 s0 sched)); plan_flags;
       VZ (s_late s); of_bool (match s_phase s with CStuck => true | _ => false end); VZ (zlen (s_hist s))].
+(* timed rounds (timeout scope of the pings); all times in ns.
+   input:  [-2 failures disabled interval_ns timeout_s interval_s t0 [ [start [[lat res honours] ...] [q ...]] ... ]]
+           lat < 0 = the token never answers on its own; tokens in the order in which they were pinged
+   output: [ [ [completed [ok ...] tend [[has-deadline, deadline of the context minus start of the ping] per ping] [model_q spec_q ...]] ... ]
+             [chain as [site dur live] for this configuration and 2 tokens] ] *)
+Definition vtok (v : val) : tok :=
+  mkTok (if vz (vnth 0 v) <? 0 then None else Some (vz (vnth 0 v))) (vbool (vnth 1 v)) (vbool (vnth 2 v)).
+Definition vtround (v : val) : tround := mkTR (vz (vnth 0 v)) (map vtok (vl (vnth 1 v))).
+Fixpoint budgets (chain : list elem) (rs now : Z) (tr : list (Z * bool)) : list val :=
+  match tr with
+  | [] => []
+  | (t', _) :: rest => (match ping_deadline chain rs now with Some d => VL [VZ 1; VZ (d - now)] | None => VL [VZ 0; VZ 0] end) :: budgets chain rs t' rest
+  end.
+Fixpoint go_timed (chain : Z -> list elem) (failures : Z) (disabled : bool) (interval T t0 : Z) (done : list tround) (rest : list val) : list val :=
+  match rest with
+  | [] => []
+  | v :: rest' =>
+      let r := vtround v in
+      let done' := done ++ [r] in
+      let c := chain (zlen (tr_toks r)) in
+      let st := h_run_timed chain failures t0 done' in
+      let sh := spec_hist T done' in
+      VL [of_bool (match run_round c (tr_start r) (tr_toks r) with Some _ => true | None => false end);
+          VL (match run_round c (tr_start r) (tr_toks r) with Some (oks, _) => map of_bool oks | None => [] end);
+          VZ (match run_round c (tr_start r) (tr_toks r) with Some (_, tend) => tend | None => -1 end);
+          VL (match round_trace c (tr_start r) (tr_start r) (tr_toks r) with Some tr => budgets c (tr_start r) (tr_start r) tr | None => [] end);
+          VL (flat_map (fun q => [of_bool (h_healthy disabled interval st (vz q));
+                                  of_bool (spec_healthy disabled interval failures t0 sh (vz q))]) (vl (vnth 2 v)))]
+      :: go_timed chain failures disabled interval T t0 done' rest'
+  end.
+Definition run_timed (v : val) : val :=
+  let failures := vz (vnth 1 v) in
+  let disabled := vbool (vnth 2 v) in
+  let interval := vz (vnth 3 v) in
+  let timeout_s := vz (vnth 4 v) in
+  let interval_s := vz (vnth 5 v) in
+  let t0 := vz (vnth 6 v) in
+  VL [VL (go_timed (cfg_chain timeout_s interval_s) failures disabled interval (spec_timeout timeout_s) t0 [] (vl (vnth 7 v)));
+      VL (map (fun e : elem => VL [VZ (fst (fst e)); VZ (snd (fst e)); of_bool (snd e)]) (cfg_chain timeout_s interval_s 2))].
+
 Definition run (v : val) : val :=
-  if vz (vnth 0 v) =? -1 then run_conc v else run_hist v.
+  if vz (vnth 0 v) =? -1 then run_conc v
+  else if vz (vnth 0 v) =? -2 then run_timed v
+  else run_hist v.
